@@ -101,15 +101,27 @@ def build_jax(cfg):
 
 def has_classic(cfg):
     """Configurations that exist in both APIs (see test/test_re/test_correlated_field.py)."""
+    if cfg.get("classic_only"):
+        return True
     if cfg["model"] == "npa":
         return cfg["np_kind"] == "power"
     return cfg["np_kind"] == "amplitude" and not cfg["renorm"]
 
 
+def variant(cfg):
+    """Which non-default feature of the classic API a configuration exercises (part of the signature)."""
+    if not isinstance(cfg["offset_std"], (list, tuple)):
+        return "scalar_offset_std"
+    if not cfg.get("adjust", True):
+        return "adjust_for_volume_false"
+    return "default"
+
+
 def build_classic(cfg):
     ift = quiet()
     m = ift.CorrelatedFieldMaker("")
-    m.set_amplitude_total_offset(cfg["offset_mean"], tuple(cfg["offset_std"]))
+    ostd = cfg["offset_std"]
+    m.set_amplitude_total_offset(cfg["offset_mean"], tuple(ostd) if isinstance(ostd, (list, tuple)) else ostd)
     for i, s in enumerate(cfg["spaces"]):
         sp = ift.RGSpace(tuple(s["shape"]), tuple(s["dist"]))
         if cfg["model"] == "npa":
@@ -117,7 +129,8 @@ def build_classic(cfg):
                                asperity=t2(s.get("asp")), loglogavgslope=tuple(s["slope"]), prefix="s%d" % i)
         else:
             m.add_fluctuations_matern(sp, scale=tuple(s["flu"]), cutoff=tuple(s["cutoff"]),
-                                      loglogslope=tuple(s["slope"]), prefix="s%d" % i)
+                                      loglogslope=tuple(s["slope"]), prefix="s%d" % i,
+                                      adjust_for_volume=bool(cfg.get("adjust", True)))
     return m, m.finalize()
 
 
@@ -138,6 +151,16 @@ class Impl:
 
     def __init__(self, cfg, which, pos=None):
         self.cfg, self.which = cfg, which
+        self.native = bool(cfg.get("classic_only"))      # latent vector in the classic layout, no JAX twin
+        if self.native:
+            if which != "classic":
+                raise ValueError("configuration exists only in the classic API")
+            self.cm, self.cf = build_classic(cfg)
+            rng = np.random.default_rng([int(cfg["seed"]), 28])
+            self.pos = {k: rng.normal(size=tuple(self.cf.domain[k].shape)) for k in sorted(self.cf.domain.keys())}
+            self.shape = tuple(np.shape(self.pos["xi"]))
+            self.npos = self.to_cl(self.pos)
+            return
         self.jm, self.jcf = build_jax(cfg)
         self.pos = latent(cfg, self.jcf) if pos is None else pos
         self.shape = tuple(np.shape(self.pos["xi"]))
@@ -145,13 +168,20 @@ class Impl:
             self.cm, self.cf = build_classic(cfg)
             self.npos = to_classic(self.pos, self.cf)
 
+    def to_cl(self, p):
+        if not self.native:
+            return to_classic(p, self.cf)
+        ift = quiet()
+        return ift.MultiField.from_dict({k: ift.makeField(self.cf.domain[k], np.array(v)) for k, v in p.items()},
+                                        self.cf.domain)
+
     def field(self, xi=None):
         p = dict(self.pos)
         if xi is not None:
             p["xi"] = np.asarray(xi, dtype=float).reshape(self.shape)
         if self.which == "jax":
             return np.asarray(self.jcf(p))
-        return self.cf(to_classic(p, self.cf)).asnumpy()
+        return self.cf(self.to_cl(p)).asnumpy()
 
     def response(self):
         n = int(np.prod(self.shape))
@@ -162,6 +192,8 @@ class Impl:
     def azm(self):
         if self.which == "jax":
             return float(self.jm.azm(self.pos))
+        if np.isscalar(self.cm.azm):
+            return float(self.cm.azm)
         return float(self.cm.azm.force(self.npos).asnumpy())
 
     def fluct(self):
@@ -203,7 +235,8 @@ class Impl:
         azm = self.azm()
         for (amp, mult, pidx, vol) in self.amplitudes():
             na = np.array(amp, dtype=float)
-            na[1:] = na[1:] * (1.0 / azm)
+            if azm != 0:
+                na[1:] = na[1:] * (1.0 / azm)
             out.append(na[pidx].reshape(-1))
         return out
 
@@ -283,7 +316,22 @@ def fixed_cfgs():
     mt = {"shape": [4], "dist": [0.5], "flu": [1.3, 0.2], "slope": [-3.0, 0.3], "cutoff": [0.7, 0.1]}
     mt2 = {"shape": [2, 4], "dist": [1.0, 0.25], "flu": [0.6, 0.1], "slope": [-2.0, 0.3], "cutoff": [1.2, 0.1]}
     base = {"offset_mean": 0.3, "offset_std": [0.5, 0.1], "renorm": False}
-    return [
+    co = dict(base, classic_only=True)
+    mt3 = {"shape": [8], "dist": [0.3], "flu": [1.2, 0.3], "slope": [-3.0, 0.5], "cutoff": [2.0, 0.5]}
+    sp3 = {"shape": [6], "dist": [0.4], "flu": [1.3, 0.2], "slope": [-2.0, 0.3], "flex": [1.0, 0.2], "asp": [0.3, 0.05]}
+    classic_only = [
+        # Matern, adjust_for_volume False / True, volumes 2 and 2.4
+        dict(co, model="matern", spaces=[mt], np_kind="amplitude", conv=CONVS[0], seed=21, adjust=False),
+        dict(co, model="matern", spaces=[mt3], np_kind="amplitude", conv=CONVS[1], seed=22, adjust=False),
+        dict(co, model="matern", spaces=[mt3], np_kind="amplitude", conv=CONVS[0], seed=23, adjust=True),
+        # scalar zero-mode amplitude (neither 0 nor 1), disabled zero mode, unit zero mode
+        dict(co, model="npa", spaces=[sp], np_kind="power", conv=CONVS[0], seed=24, offset_std=2.0),
+        dict(co, model="npa", spaces=[sp3, sp2], np_kind="power", conv=CONVS[1], seed=25, offset_std=0.5),
+        dict(co, model="matern", spaces=[mt3], np_kind="amplitude", conv=CONVS[0], seed=26, offset_std=2.5),
+        dict(co, model="npa", spaces=[sp3], np_kind="power", conv=CONVS[0], seed=27, offset_std=None),
+        dict(co, model="npa", spaces=[sp], np_kind="power", conv=CONVS[1], seed=28, offset_std=1.0),
+    ]
+    return classic_only + [
         dict(base, model="npa", spaces=[sp], np_kind="power", conv=CONVS[0], seed=11),
         dict(base, model="npa", spaces=[sp, sp2], np_kind="power", conv=CONVS[1], seed=12),
         dict(base, model="matern", spaces=[mt], np_kind="amplitude", conv=CONVS[0], seed=13),
@@ -325,15 +373,22 @@ def coq_checks(o):
     out = []
     fls = o["fluct"]
     nsp = len(cfg["spaces"])
+    nozm = o["azm"] == 0          # zero mode disabled (offset_std=None): single sub-domain only, total = average
     if all(f is not None for f in fls):
-        out.append(("total", "c_total %s %s %s %s" % (TOLQ, cq(o["azm"]), cqs(fls), cq(o["tot"]))))
+        if not nozm:
+            out.append(("total", "c_total %s %s %s %s" % (TOLQ, cq(o["azm"]), cqs(fls), cq(o["tot"]))))
+        else:
+            out.append(("total", "c_average %s %s 0%%nat %s" % (TOLQ, cqs(fls), cq(o["tot"]))))
         for s in range(nsp):
             if nsp > 1:
                 out.append(("slice%d" % s, "c_slice %s %s %s %d%%nat %s" % (TOLQ, cq(o["azm"]), cqs(fls), s, cq(o["slice"][s]))))
             out.append(("average%d" % s, "c_average %s %s %d%%nat %s" % (TOLQ, cqs(fls), s, cq(o["avg"][s]))))
     if o["impl"] == "classic":
         # the values returned by the coded total/slice/average_fluctuation operators vs the model's formulas
-        out.append(("own_total", "c_total %s %s %s %s" % (TOLQ, cq(o["azm"]), cqs(fls), cq(o["own_total"]))))
+        if not nozm:
+            out.append(("own_total", "c_total %s %s %s %s" % (TOLQ, cq(o["azm"]), cqs(fls), cq(o["own_total"]))))
+        else:
+            out.append(("own_total", "c_average %s %s 0%%nat %s" % (TOLQ, cqs(fls), cq(o["own_total"]))))
         for s in range(nsp):
             if nsp > 1:
                 out.append(("own_slice%d" % s, "c_slice %s %s %s %d%%nat %s" % (TOLQ, cq(o["azm"]), cqs(fls), s, cq(o["own_slice"][s]))))
@@ -346,7 +401,7 @@ def coq_checks(o):
         amp, rho, vol = o["amps"][0]
         # the realised variance is sum_{k>0} m_k A_k^2 / V^2 whatever the amplitude model is
         out.append(("variance_from_amplitude", "c_matern_fluct %s %s %s %s %s" % (TOLQ, cq(vol), cqs(rho), cqs(amp), cq(o["tot"]))))
-    if is_exact(cfg):
+    if is_exact(cfg) and not nozm:
         shapes = C.clist([cnats(s["shape"]) for s in cfg["spaces"]])
         vols = cqs([a[2] for a in o["amps"]])
         amps = C.clist([cqs(a) for a in o["namps"]])
@@ -371,15 +426,20 @@ def direct_failures(o, other=None):
     for s in range(nsp):
         amp, rho, vol = o["amps"][s]
         amp, rho = np.array(amp), np.array(rho)
-        if abs(amp[0] - vol) > TOL * max(1.0, vol):
-            out.append(("zero_mode_amplitude", "A_0 = %r is not the volume %r" % (amp[0], vol)))
+        # zero-mode entry: the volume (Matern with adjust_for_volume=False: 1, the caller adjusts azm himself)
+        a0 = vol if cfg.get("adjust", True) else 1.0
+        if abs(amp[0] - a0) > TOL * max(1.0, a0):
+            out.append(("zero_mode_amplitude", "A_0 = %r is not %r" % (amp[0], a0)))
         norm_expected = cfg["model"] == "npa" or (o["impl"] == "jax" and cfg["renorm"])
         if norm_expected and fls[s] is not None:
             w = float((rho[1:] * amp[1:] ** 2).sum())
             if rel(w, fls[s] ** 2 * vol ** 2) > TOL:
                 out.append(("normalisation", "sum m_k A_k^2 = %r but flu^2 V^2 = %r" % (w, fls[s] ** 2 * vol ** 2)))
     # realised variance vs the model's own prediction
-    if all(f is not None for f in fls):
+    if all(f is not None for f in fls) and azm == 0:
+        if rel(o["tot"], fls[0] ** 2) > TOL:
+            out.append(("total_fluctuation", "expected spatial variance %r differs from fluctuations^2 %r (zero mode disabled)" % (o["tot"], fls[0] ** 2)))
+    elif all(f is not None for f in fls):
         q = np.prod([1 + (f / azm) ** 2 for f in fls])
         pred_tot = float((q - 1) * azm ** 2)
         if rel(o["tot"], pred_tot) > TOL:
@@ -403,7 +463,7 @@ def direct_failures(o, other=None):
         out.append(("offset", "field at zero excitation is not offset_mean"))
     mr = np.array(o["mean_resp"])
     want = np.zeros_like(mr)
-    want[0] = azm
+    want[0] = azm if cfg.get("adjust", True) else azm / float(np.prod([a[2] for a in o["amps"]]))
     if np.abs(mr - want).max() > TOL * max(1.0, azm):
         out.append(("zero_mode", "spatial mean does not respond as azm * xi_0 only"))
     if other is not None:
@@ -436,7 +496,7 @@ def resolution_failures(cfg):
 
 def signature(o_or_cfg, impl, check):
     cfg = o_or_cfg
-    return {"impl": impl, "model": cfg["model"], "check": check}
+    return {"impl": impl, "model": cfg["model"], "check": check, "variant": variant(cfg)}
 
 
 def sweep_old(prop, max_age=3600):
@@ -497,6 +557,12 @@ class C28(C.Check):
         checks, meta = [], []
         ndiff = dbad = 0
         for cfg in self.cases(ctx):
+            if cfg.get("classic_only"):
+                self.obs.append([observe(cfg, "classic")])
+                for name, term in coq_checks(self.obs[-1][0]):
+                    checks.append(term)
+                    meta.append({"cfg": cfg, "impl": "classic", "check": name})
+                continue
             oj = observe(cfg, "jax")
             pair = [oj]
             if has_classic(cfg):
@@ -514,8 +580,22 @@ class C28(C.Check):
                     checks.append(term)
                     meta.append({"cfg": cfg, "impl": o["impl"], "check": name})
         bad = C.eval_cases(self.prop, "corr_p%d" % os.getpid(), HEADER, checks, shard=150, jobs=4)
-        for i in bad[:4]:
+        # a disagreement that lies inside the signature of an OPEN known finding is accounted for by it
+        oracle_name = {"total": "total_fluctuation", "own_total": "total_fluctuation", "average": "average_fluctuation",
+                       "own_average": "average_fluctuation", "slice": "slice_fluctuation", "own_slice": "slice_fluctuation",
+                       "field": "zero_mode", "variance_from_amplitude": "total_fluctuation"}
+        shown = 0
+        for i in bad:
+            base = meta[i]["check"].rstrip("0123456789")
+            sig = signature(meta[i]["cfg"], meta[i]["impl"], oracle_name.get(base, base))
+            known = C.match_known(self.prop, {"signature": sig})
+            if known is None and shown >= 4:
+                continue
             res.add_broken("correspondence", "correlated field %s vs coq/C28/Model.v (%s)" % (meta[i]["impl"], meta[i]["check"]), meta[i])
+            if known is not None:
+                res.broken[-1]["covered_by_known"] = known["id"]
+            else:
+                shown += 1
         distinct = len({json.dumps([m["cfg"]["model"], m["cfg"]["np_kind"], m["cfg"]["renorm"], m["impl"], m["check"],
                                     [s["shape"] for s in m["cfg"]["spaces"]], m["cfg"]["conv"]], sort_keys=True)
                         for m in meta})
@@ -543,6 +623,8 @@ class C28(C.Check):
         quiet()
         n = 0
         seen = set()
+        if res.broken and all(b.get("covered_by_known") for b in res.broken):
+            budget = 1
 
         def report(cfg, impl, fl):
             for name, detail in fl:
@@ -557,6 +639,9 @@ class C28(C.Check):
         for pair in self.obs:
             n += 1
             oj = pair[0]
+            if oj["impl"] == "classic":
+                report(oj["cfg"], "classic", direct_failures(oj))
+                continue
             report(oj["cfg"], "jax", direct_failures(oj))
             if len(pair) > 1:
                 report(oj["cfg"], "classic", direct_failures(pair[1], other=oj))
@@ -584,6 +669,8 @@ class C28(C.Check):
         cfg, impl = rp["input"]["cfg"], rp["input"]["impl"]
         want = rp["signature"]["check"]
         try:
+            if cfg.get("classic_only"):
+                return any(name == want for name, _ in direct_failures(observe(cfg, "classic")))
             oj = observe(cfg, "jax")
             if impl == "jax":
                 fl = direct_failures(oj) + (resolution_failures(cfg) if want == "resolution" else [])
